@@ -68,6 +68,7 @@ def FixedSizeString(size_: int, len_type_: Union[DataType, Type[DataType]] = UDI
 
         @classmethod
         def _encode(cls, value: str, *args, **kwargs) -> bytes:
+            value = value[: cls.size]  # a string longer than the tag's capacity is truncated to it
             return (
                 cls.len_type.encode(len(value))
                 + value.encode(cls.encoding)
